@@ -344,9 +344,13 @@ def c05_collapse(kw):
     if not rooted and not (splits_of(target, rooted) <= before_splits):
         return "collapse-created-a-split"
     if rooted:
+        # one comparison for all leaves (a sum of absolute differences is a fork-free term)
+        dev = 0
         for nd in tg.reachable(target):
-            if not nd._child_nodes and tg.root_distance(nd) != rd[tg.leaf_label(nd)]:
-                return "collapse-changed-a-root-to-tip-distance"
+            if not nd._child_nodes:
+                dev = dev + abs(tg.root_distance(nd) - rd[tg.leaf_label(nd)])
+        if dev != 0:
+            return "collapse-changed-a-root-to-tip-distance"
     # (unrooted targets: the seed position is arbitrary and the basal bifurcation is merged on
     # encoding, so "root-to-tip" has no fixed meaning there; only the topology claim is checked)
     return True
@@ -386,7 +390,7 @@ def classify(inp):
     return inp.get("mode", "")
 
 
-BUDGET = dict(quick=240, thorough=900)
+BUDGET = dict(quick=300, thorough=900)
 
 
 def harnesses(tier):
